@@ -44,13 +44,22 @@ def make_search(rng, model, vocab, t, pool=None, small=False, allow_last=True, a
         j = rng.randint(i, n)
         if rng.random() < 0.5:
             j = n if rng.random() < 0.5 else j
+        collapsed = list(zip(t.keys[i:j], segs[i:j]))
         segs[i:j] = ["**"]
         info["ops"].append("dstar")
+        info["collapsed"] = collapsed
         if allow_malformed and rng.random() < 0.04 and len(segs) > 3:
             segs.insert(rng.randint(1, len(segs) - 1), "**")
             info["ops"].append("dstar2")
     s = "/".join(segs)
     # filters
+    if allow_filter and info.get("collapsed") and rng.random() < 0.12:
+        # a filter on a key that the '**' swallowed (its value overlays whatever the expansion puts there)
+        k, v = rng.choice(info["collapsed"])
+        if v and not any(ch in v for ch in "*>,%+;#~ &=?"):
+            s += "?%s=%s" % (k, v)
+            info["ops"].append("filter_on_collapsed_key")
+            return s, info
     if allow_filter and rng.random() < 0.4:
         fl = []
         for _ in range(rng.choice([1, 1, 2])):
